@@ -34,6 +34,17 @@ field.description = regex_replace(field.description, "^APLPAY\\\\s+", "")
 '''
 OLD_REPORT = '<html>report I kept</html>\n'
 BASES = {'user': c15.SETTINGS_PLAIN, 'userref': c15.SETTINGS_REF}
+# user settings that MENTION a key init / migrate would add - in a comment, in the middle of the file (descendants of the starter
+# template, hand-written notes).  Commands.tla does not model what init decides on them (append or not: both keep the user's
+# lines); these files are only ever judged by the byte-wise frame rules: every existing line stays where it is, as it is
+_HEAD, _TAIL = c15.SETTINGS_PLAIN.split('\n', 1)
+XBASES = {
+    'xvfc': _HEAD + '\n# views_file: config/views.rules   (uncomment for custom views)\n' + _TAIL,
+    'xvfc2': c15.SETTINGS_PLAIN + '#views_file: my-views.rules\ntitle: "Budget"\n',
+    'xmfc': _HEAD + '\n#   merchants_file: config/merchants.rules\n' + _TAIL + '# Views_File: later\n',
+    'xboth': '# settings\n# views_file: config/views.rules\n# merchants_file: config/merchants.rules\n' + c15.SETTINGS_PLAIN,
+}
+BASES.update(XBASES)
 # the same user files saved by an editor that writes CRLF line endings (every third history): still the user's bytes
 BASES_CRLF = {k: v.replace('\n', '\r\n') for k, v in BASES.items()}
 
@@ -341,6 +352,26 @@ def run(ck):
         cmds = [rnd.choice(['init', 'up_migrate', 'up_html', 'up_html'] + list(CMD_ARGS)) for _ in range(rnd.randint(1, 5))]
         rand_items.append(('rand%d' % k, fs0, cmds))
     results2 = par.pmap(_run_history, rand_items)
+    # frame-only histories on settings files that mention views_file / merchants_file in a comment (see XBASES)
+    frame_items = []
+    for k in range(48 if quick else 600):
+        fs0 = {'settings': {'base': sorted(XBASES)[k % len(XBASES)], 'app': []},
+               'csv': rnd.choice(['absent', 'R', 'R']), 'csvbak': 'absent', 'csvbak1': 'absent',
+               'rules': rnd.choice(['absent', 'U', 'E']), 'rulesbak': 'absent', 'views': rnd.choice(['absent', 'V']),
+               'data': rnd.choice(['absent', 'D', 'D']), 'gitignore': rnd.choice(['absent', 'G']), 'report': 'absent'}
+        cmds = [rnd.choice(['init', 'init', 'up_migrate', 'up_html', 'diag'])] + [rnd.choice(['init', 'up_migrate', 'up_html'] + list(CMD_ARGS)) for _ in range(rnd.randint(0, 2))]
+        frame_items.append(('frame%d' % k, fs0, cmds))
+    results3 = par.pmap(_run_history, frame_items)
+    for r in results3:
+        ck.case(n=1)
+        ck.trace(1)
+        ck.case(json.dumps([r['states'][0], r['cmds']], sort_keys=True), nontrivial=True, n=0)
+        for k, (c, fr) in enumerate(zip(r['cmds'], r['frames'])):
+            for clause, path in fr:
+                ck.violation({'site': c, 'clause': clause, 'path': path},
+                             {'fs0': frame_items[int(r['id'][5:])][1], 'cmds': r['cmds'], 'step': k, 'detail': fr, 'args': r['addressed'][k], 'addressed': r.get('addressed'), 'id': r['id']},
+                             '`tally %s` (step %d of %s) %s %s' % (r['addressed'][k].split(' ', 1)[-1], k + 1, r['cmds'], clause, path))
+    ck.extra['frame_only_histories'] = len(results3)
     recs = []
     byid = {}
     conf_notes = 0
